@@ -374,6 +374,49 @@ def rule_p6(repo, col):
     col.floor("P6.number_paths", n, 2)
 
 
+def rule_p7(repo, col):
+    """problog_export wrapper (deterministic functions): the call fails only when an output cannot be unified with a bound argument; the VALUE the Python function returned
+    never decides success (0, 0.0, '' and [] are values, not failures)"""
+    from .. import dtable
+
+    c = repo.cls("problog.extern", "problog_export")
+    call = c.methods.get("__call__")
+    if call is None:
+        raise AnalysisError("problog_export.__call__ missing")
+    m = call.module
+    inner = [n for n in ast.walk(call.node) if isinstance(n, ast.FunctionDef) and n is not call.node]
+    if len(inner) != 1:
+        raise AnalysisError("problog_export.__call__: wrapper function not found")
+    w = inner[0]
+    res = None
+    for st in ast.walk(w):
+        if isinstance(st, ast.Assign) and isinstance(st.targets[0], ast.Name) and isinstance(st.value, ast.Call) and norm(st.value.func) == "func":
+            res = st.targets[0].id
+    if res is None:
+        raise AnalysisError("problog_export wrapper: call of the exported function not found")
+    paths = dtable.extract(w, opaque_loops=True)
+    n = 0
+    bad = []
+    for p_ in paths:
+        if not (p_.end == "return" and p_.value in ("[]", "()", "None")) and p_.end != "fall":
+            continue
+        n += 1
+        if any(s_.startswith("<except") for s_, _, _ in p_.conds):
+            continue
+        tests = [s_ for s_, _, _ in p_.conds if "func(" in s_ or s_ in (res, "not %s" % res)]
+        plain = [s_ for s_ in tests if not (s_.endswith(" is None") or s_.endswith(" is not None"))]
+        if plain:
+            bad.append(plain[0])
+        elif not tests:
+            raise AnalysisError("problog_export wrapper: a failing path that depends on neither the result nor a UnifyError (%s)" % [s_ for s_, _, _ in p_.conds][:3])
+    if n == 0:
+        raise AnalysisError("problog_export wrapper: no failing path found")
+    col.decide("P7", m, w, not bad, "the wrapper fails only on a UnifyError of a bound output",
+               "the problog_export wrapper returns no solution when `%s` is false: the truth value of what the Python function returned decides success, so a function whose answer is 0, 0.0, "
+               "'' or [] silently fails instead of binding that value" % (bad[0][:80] if bad else ""), construct="problog_export wrapper: failure decided by the truth value of the result",
+               function="problog_export.__call__")
+
+
 def run(repo, col):
     col.rule("P1", "constructor coverage py2pl <-> pl2py")
     col.rule("P2", "string codec removes exactly the delimiter pair that was added")
@@ -387,3 +430,5 @@ def run(repo, col):
     rule_p5(repo, col)
     col.rule("P6", "numbers are wrapped unchanged")
     rule_p6(repo, col)
+    col.rule("P7", "exported functions: falsy return values are values")
+    rule_p7(repo, col)
